@@ -296,8 +296,10 @@ def correspond(ctx):
     from chmpy.core.element import Element
     from chmpy.crystal import AsymmetricUnit, Crystal, SpaceGroup, UnitCell
     for _ in range(25 if not ctx.thorough else 300):
-        n = rng.randint(1, 12)
-        pool = rng.sample(range(1, 104), rng.randint(1, 5))
+        # a fifth of the cases have ten or more distinct elements (two-digit SFAC indices)
+        many = rng.random() < 0.2
+        n = rng.randint(1, 12) if not many else rng.randint(14, 24)
+        pool = rng.sample(range(1, 104), rng.randint(1, 5) if not many else rng.randint(10, 14))
         zs = [rng.choice(pool) for _ in range(n)]
         c = Crystal(UnitCell.cubic(10.0 + rng.random()), SpaceGroup(1), AsymmetricUnit([Element[z] for z in zs], np.array([[rng.random() for _ in range(3)] for _ in zs])))
         text = c.to_shelx_string().splitlines()
